@@ -1,10 +1,12 @@
 import DispatchVerif.Core.ApplyP
+import DispatchVerif.Core.ApplyLive
 /-! # C10 — dispatch_apply invokes every index exactly once and then returns
 
 `ApplyP` models the shared-counter core of `src/apply.c` (`_dispatch_apply_invoke2`): every participating thread (the
 caller and any number of helpers) fetch-and-increments `da_index`, invokes the work function while the fetched value is
 below `n`, subtracts the number of invocations it finished from `da_todo`, signals the completion event when that reaches
-zero; the caller waits for the event. Any `n`, any number of helpers, any interleaving. -/
+zero; the caller waits for the event. Any `n`, any number of helpers, any interleaving.
+`ApplyLive` adds the "and then returns" half over the same machine: the caller cannot be left waiting. -/
 namespace C10
 open ApplyP
 
@@ -18,5 +20,19 @@ theorem invoked_once_in_range {n : Nat} {c : Tid} {s : St} (h : Reachable n c s)
 theorem returns_after_all {n : Nat} {c : Tid} {s : St} (h : Reachable n c s) (t : Tid) (hr : s.pcs t = .returned) :
     s.sh.ended = n ∧ s.sh.runners = [] ∧ s.sh.invoked.Nodup ∧ s.sh.invoked.length = n ∧ ∀ i, i < n → i ∈ s.sh.invoked :=
   ApplyP.returns_after_all h t hr
+
+/-- **dispatch_apply returns**: for n > 0 (n = 0 returns before any of this), in every reachable state in which the caller
+    waits on `da_event` and no other thread is inside `_dispatch_apply_invoke2` any more (each helper either never came or has
+    left), the event has been signalled, so the wait ends. No helper count, interleaving or late helper can strand the
+    caller. -/
+theorem caller_released {n : Nat} {c : Tid} {s : St} (h : Reachable n c s) (hn : 0 < n)
+    (hc : s.pcs c = .waitEv) (hq : ∀ t, t ≠ c → s.pcs t = .idle ∨ s.pcs t = .out) : s.sh.signalled = true :=
+  ApplyP.caller_released h hn hc hq
+
+/-- non-vacuity: a reachable state meets every hypothesis of `caller_released` (caller did the one iteration, a late
+    helper has been and gone) -/
+theorem caller_released_witness :
+    ∃ s, Reachable 1 0 s ∧ s.pcs 0 = .waitEv ∧ (∀ t, t ≠ 0 → s.pcs t = .idle ∨ s.pcs t = .out) ∧ s.pcs 1 = .out :=
+  ApplyP.caller_released_witness
 
 end C10
